@@ -211,6 +211,7 @@ def main(tier):
         'differential harness harness/c13.py (node vs CPython, bit-exact doubles)'])
     broken = []
     if tfails:
+        run.cov['discharged'] = 0   # the compiled theorems are about a stale translation, not the current source
         broken.append({'kind': 'translation-failure', 'detail': tfails})
     elif not res['ok']:
         broken.append({'kind': 'broken-obligation', 'detail': first_error(res['log'])})
